@@ -6,8 +6,8 @@ VERIF = os.path.dirname(os.path.dirname(os.path.abspath(__file__)))
 CHECKS = {
  "C04": dict(level="model_checking", engine="xplore",
    technique="explicit-state BFS over the real RingBuffer/DecodeBuffer (history replay, key = cap/head/tail), VecDeque reference model, guard-zone allocator",
-   text="Every reachable (capacity, head, tail) state of the real ring buffer up to capacity 129 (quick) / 257 (thorough) is expanded with every operation the decoder performs and every operand size; each transition runs on two instances with different allocator poison, is compared with a VecDeque after the step and has the guard zones around the allocation checked. A second closed system drives DecodeBuffer (push, repeat incl. dictionary reach and overlapping copies, every drain path with partial and failing sinks, reset). Right level because the property quantifies over operation histories of a small control state; contents never influence control flow.",
-   note="Trusts: the key argument (branches compare only cap/head/tail/start/len and 16-byte multiples), 256-byte guard zones (farther stray writes are left to the Miri/ASan tier), rustc; preconditions are those DecodeBuffer establishes.",
+   text="Every reachable (capacity, head, tail) state of the real ring buffer up to capacity 129 (quick) / 257 (thorough) is expanded with every operation the decoder performs and every operand size; each transition runs on two instances with different allocator poison, is compared with a VecDeque after the step and has the guard zones around the allocation checked. A second closed system drives DecodeBuffer (push, repeat incl. dictionary reach and overlapping copies, every drain path with partial and failing sinks, reset). The thorough tier additionally replays every (state, operation) pair with capacity <= 17 and every reduced-menu DecodeBuffer history under Miri (16 shards), which decides 'no undefined behaviour' per enumerated execution. Right level because the property quantifies over operation histories of a small control state; contents never influence control flow.",
+   note="Trusts: the key argument (branches compare only cap/head/tail/start/len and 16-byte multiples), 256-byte guard zones (farther stray writes and uninitialised reads are visible only in the thorough tier's Miri replay, capacities <= 17), rustc; preconditions are those DecodeBuffer establishes.",
    design="3/C04"),
 }
 
@@ -37,7 +37,7 @@ CHECKS["C01"] = dict(level="model_checking", engine="xplore",
 CHECKS["C03"] = dict(level="fault_enumeration", engine="sweep",
    technique="deviation-bounded fault enumeration (0/1/2 faults) on libzstd-validated seed frames plus complete byte-level spaces behind a valid prefix, in rlimit'ed watchdog'ed worker processes",
    text="0 faults = ~260/520 seed frames (one per archetype class, all valid per libzstd); 1 fault = every truncation and every position x {0x00,0xFF,b^1,b^0x80,b+1} (all 255 values on frames <= 120 bytes in thorough); 2 faults = all position pairs x 9 value pairs on frames <= 40 bytes (thorough). Complete spaces: all 2^24 block headers, all compressed-block bodies of <= 2/3 bytes, all FSE descriptions of <= 2/3 bytes at the LL/OF/ML/Huffman-weight positions, all weight-header bytes x bodies, all 2-byte literals-header prefixes, all direct weight vectors of <= 4/5 weights. Hand-built hostile but well-formed frames (amplification, offsets past output, rep1-1=0, treeless/repeat without a table, RLE symbols beyond the alphabet, jump table past the end, sequence count above the bit stream, reserved block type, 128 MiB window, 4 GiB skippable frame). Dictionary truncations and byte faults, then decoding with every mutant that parsed. Each case through 8 front ends (2 for byte-complete spaces); after an error: drain, query every accessor, reset onto a good frame which must decode correctly on the same object. Oracle: no panic, no process death, no watchdog expiry (10 s), < 1 GiB heap.",
-   note="Workers run with an 8 GiB address-space limit; a worker death is re-run alone twice before it is reported. Out-of-bounds accesses that do not crash are not visible here (C04 covers the unsafe code; ASan tier not part of quick).",
+   note="Workers run with an 8 GiB address-space limit; a worker death is re-run alone twice before it is reported. Out-of-bounds accesses that do not crash are not visible here (C04 covers the unsafe code, with a Miri replay in its thorough tier).",
    design="3/C03")
 
 CHECKS["C05"] = dict(level="exploration", engine="sweep",
